@@ -21,7 +21,6 @@ from .. import ref as R
 from .. import impl as I
 from .. import docspace as DS
 
-from gherkin.token_formatter_builder import TokenFormatterBuilder
 
 
 def delivery_oracle(n, built, unexpected, n_errors, accepted, case, acc, capped=False, last_error_line=None):
@@ -166,8 +165,19 @@ def job_la(state, r1max, r2max, text_level):
     return acc
 
 
-def fmt(tokens):
-    return [TokenFormatterBuilder._format_token(t) for t in tokens]
+def token_fields(t):
+    """What a listing row shows, read from the token's public fields."""
+    if t.eof():
+        return 'EOF'
+    return (t.location.get('line'), t.location.get('column'), getattr(t, 'matched_type', None), getattr(t, 'matched_keyword', None) or None,
+            getattr(t, 'matched_keyword_type', None) or None, getattr(t, 'matched_text', None) or '',
+            [(i['column'], i['text']) for i in (getattr(t, 'matched_items', None) or [])])
+
+
+def ref_fields(t):
+    if t.eof:
+        return 'EOF'
+    return (t.line_no, t.column, t.kind, t.keyword or None, t.ktype or None, t.text or '', list(t.items))
 
 
 def check_text(text, acc, default='en'):
@@ -193,20 +203,21 @@ def check_text(text, acc, default='en'):
         unexpected = [e[0] for e in errs if e[3] in ('UnexpectedTokenException', 'UnexpectedEOFException')]
     last = max((e[0] for e in a[1] if isinstance(e[0], int)), default=None) if a[0] != 'ok' else None
     delivery_oracle(n, built, unexpected, nerr, a[0] == 'ok', case, acc, capped=nerr >= 11, last_error_line=last)
-    # the printed listing reflects exactly these tokens, and equals the reference lexer's listing
-    try:
-        listing = fmt(toks)
-    except Exception as e:  # noqa: BLE001
-        acc.violation('listing-format', case, 'token formatter raised %s: %s' % (type(e).__name__, e))
+    if (a[0] == 'ok') != (r.status == 'ok') or nerr >= 11 or r.capped:
         return
-    if a[0] == 'ok' and '\n'.join(listing) != a[1]:
-        acc.violation('listing-format', case, 'get_result() differs from the formatted tokens')
-    if (a[0] == 'ok') == (r.status == 'ok') and nerr < 11 and not r.capped:
-        exp = R.format_token_list(r.tokens)
-        if listing != exp:
-            i = next((i for i, (x, y) in enumerate(zip(listing, exp)) if x != y), min(len(listing), len(exp)))
-            acc.violation('listing-vs-reference', case, 'token listing differs from the reference at entry %d' % i,
-                          observed=listing[i:i + 2], expected=exp[i:i + 2])
+    # the tokens the builder received are the reference lexer's tokens, field by field ...
+    got = [token_fields(t) for t in toks]
+    exp = [ref_fields(t) for t in r.tokens]
+    if got != exp:
+        i = next((i for i, (x, y) in enumerate(zip(got, exp)) if x != y), min(len(got), len(exp)))
+        acc.violation('listing-vs-reference', case, 'token %d delivered to the builder differs from the reference lexer' % i,
+                      observed=got[i:i + 1], expected=exp[i:i + 1])
+        return
+    # ... and the listing printed for an accepted document shows exactly them
+    if a[0] == 'ok' and a[1] != R.format_tokens(r.tokens):
+        gl, el = str(a[1]).split('\n'), R.format_tokens(r.tokens).split('\n')
+        i = next((i for i, (x, y) in enumerate(zip(gl, el)) if x != y), min(len(gl), len(el)))
+        acc.violation('listing-format', case, 'the printed token listing differs from the tokens at row %d' % i, observed=gl[i:i + 1], expected=el[i:i + 1])
 
 
 @worker
